@@ -31,6 +31,10 @@ pub fn table_string(bdd: &Bdd) -> String {
 }
 
 pub fn interp_string(v: &[Term]) -> String {
+    if v.is_empty() {
+        // the interpretation of a framework without statements: keep it visible in a space-separated list
+        return "-".to_string();
+    }
     v.iter()
         .map(|t| {
             if t.is_truth_value() {
@@ -177,6 +181,7 @@ fn dump_string(d: &str) -> String {
 
 fn run_adf(id: &str, lines: &[String], out: &mut String) {
     let mut text = String::new();
+    let mut unparsed = false;
     let mut sort = "none".to_string();
     let mut backend = "native".to_string();
     let mut queries: Vec<Vec<String>> = Vec::new();
@@ -188,6 +193,7 @@ fn run_adf(id: &str, lines: &[String], out: &mut String) {
         }
         match w[0] {
             "text" => text = if w.len() > 1 { unhex(w[1]) } else { String::new() },
+            "unparsed" => unparsed = true,
             "sort" => sort = w[1].to_string(),
             "backend" => backend = w[1].to_string(),
             "cfg" | "draws" | "acdump" | "gdump" => {}
@@ -197,10 +203,13 @@ fn run_adf(id: &str, lines: &[String], out: &mut String) {
         }
     }
     let parser = AdfParser::default();
-    let parsed = parser.parse()(&text);
-    if parsed.is_err() {
-        writeln!(out, "{} parse ERR", id).unwrap();
-        return;
+    // "unparsed": the framework of a parser that has read nothing (no statements at all)
+    if !unparsed {
+        let parsed = parser.parse()(&text);
+        if parsed.is_err() {
+            writeln!(out, "{} parse ERR", id).unwrap();
+            return;
+        }
     }
     match sort.as_str() {
         "lexi" => {
